@@ -474,6 +474,10 @@ func (fr *Frame) applyContract(ct *Contract, sig *types.Signature, invoke bool, 
 		if hidden {
 			continue
 		}
+		if cl.finding() != "" {
+			// a clause recorded as a known finding does not hold on the callee: callers may not assume it
+			continue
+		}
 		t := evalIn(cl, pre, st, extra)
 		fx.assert(implies(cond, t))
 	}
